@@ -26,7 +26,7 @@ var validRunes = []rune{'a', 'Z', '0', ' ', '\n', '\t', 0, 0xe9, 0x6f22, 0x1f469
 // AnyItem draws an item of any kind; depth bounds cell nesting.
 func AnyItem(tokens []string, depth int) *rapid.Generator[Item] {
 	return rapid.Custom(func(t *rapid.T) Item {
-		kinds := []string{"nil", "str", "str", "str", "rune", "int", "i32n", "u8", "f64", "bool", "ints", "bytes", "map", "emap", "sx", "sn", "sns", "psx", "if", "if", "if", "ifp", "tm", "jm", "fmtr", "nstr", "stderr"}
+		kinds := []string{"nil", "str", "str", "str", "rune", "int", "i32n", "u8", "f64", "bool", "ints", "bytes", "map", "emap", "sx", "sn", "sns", "psx", "if", "if", "if", "ifp", "tm", "jm", "fmtr", "nstr", "stderr", "fielder", "anonfielder"}
 		if depth > 0 {
 			kinds = append(kinds, "cell", "cell", "pcell")
 		}
@@ -34,11 +34,11 @@ func AnyItem(tokens []string, depth int) *rapid.Generator[Item] {
 		str := func(label string) Str { return Str(StringOf(tokens, 0, 4).Draw(t, label)) }
 		it := Item{K: k}
 		switch k {
-		case "str", "bytes", "sns", "tm", "jm", "nstr", "stderr":
+		case "str", "bytes", "sns", "tm", "jm", "nstr", "stderr", "fielder":
 			it.S = str("s")
 		case "rune":
 			it.N = int64(rapid.SampledFrom(validRunes).Draw(t, "r"))
-		case "int", "i32n", "ints", "fmtr":
+		case "int", "i32n", "ints", "fmtr", "anonfielder":
 			it.N = int64(rapid.IntRange(-1000, 1000).Draw(t, "n"))
 		case "u8":
 			it.N = int64(rapid.IntRange(0, 255).Draw(t, "n"))
@@ -98,6 +98,7 @@ type ScriptOpts struct {
 	NoZeroHdr   bool                   // header has at least one cell
 	SimpleOnly  bool                   // only hdr/rowitems/sep
 	HdrCells    [2]int                 // if HdrCells[1] > 0: header cell count drawn from [HdrCells[0], HdrCells[1]]
+	AllowCopy   bool                   // also generate "copycell" (a by-value copy of an existing cell added to a row) and "newrowother"
 	AllowMutate bool                   // also generate "mutate": change a mutable item and call Cell.Update()
 	AllowReAdd  bool                   // also generate "readd": AddRow of a row that is already attached
 }
@@ -133,6 +134,9 @@ func ScriptGen(o ScriptOpts) *rapid.Generator[Script] {
 		}
 		if o.AllowMutate {
 			kinds = append(kinds, "mutate", "mutate")
+		}
+		if o.AllowCopy {
+			kinds = append(kinds, "copycell", "newrowother")
 		}
 		hdrItem := o.HdrItem
 		if hdrItem == nil {
@@ -200,6 +204,13 @@ func ScriptGen(o ScriptOpts) *rapid.Generator[Script] {
 						op.Items = append(op.Items, o.Item.Draw(t, "item"))
 					}
 				}
+			case "copycell":
+				op.Ref = rapid.IntRange(0, 5).Draw(t, "ref")
+				op.Cap = rapid.IntRange(0, 4).Draw(t, "cell")
+				op.To = rapid.IntRange(0, 5).Draw(t, "to")
+			case "newrowother":
+				op.Cap = rapid.IntRange(0, 6).Draw(t, "otherwidth")
+				rows = append(rows, rk{})
 			case "mutate":
 				op.Ref = rapid.IntRange(0, 5).Draw(t, "ref")
 				op.Cap = rapid.IntRange(0, 4).Draw(t, "cell")
